@@ -281,6 +281,29 @@ def _progs():
     add('sum_add_neg_neg', 9, 3, lambda A, p: np.sum((-A[0]) + (-A[1]), axis=p['axis']), g_sum_mul, nonfirst=True)
     add('max_mul_add', 9, 2, lambda A, p: np.maximum(A[0] * A[1], A[2] + A[3]), g_quad, data='small', nonfirst=True)
     add('neg_add_mul_mul', 9, 3, lambda A, p: -(A[0] * A[1] + A[2] * A[3]), g_quad, data='small', nonfirst=True)
+    # ---- NUMBER-valued sub-views: a reduction over ALL axes (axis None, keepdims false: 0-d, broadcasts like a scalar) as an
+    #      operand of a broadcasting binary ufunc; the device path re-applies the extracted composition, whose ufunc branch looks
+    #      through the broadcast_to around the 0-d view (function_composition.hpp:96-113).  First position: in-domain; any other
+    #      position: the known class extract.nonfirst-view-operand on the device path ----
+    def g_free2(rng):
+        return [rshape(rng), rshape(rng)], P()
+    def g_one(rng):
+        return [rshape(rng)], P()
+    def g_pair_free(rng):
+        s = rshape(rng); return [s, bpartner(rng, s), rshape(rng)], P()
+    def g_free_pair(rng):
+        s = rshape(rng); return [rshape(rng), s, bpartner(rng, s)], P()
+    def g_free_tr(rng):
+        s = rshape(rng); return [rshape(rng), s], P(axes=perm(rng, len(s)))
+    add('mul_sumall_x', 10, 2, lambda A, p: np.sum(A[0]) * A[1], g_free2, bview=True)
+    add('sub_maxall_x', 10, 2, lambda A, p: np.max(A[0]) - A[1], g_free2, bview=True)
+    add('add_x_maxall', 10, 2, lambda A, p: A[0] + np.max(A[1]), g_free2, nonfirst=True)
+    add('sub_sumall_x_rep', 10, 2, lambda A, p: np.sum(A[0]) - A[0], g_one, bview=True)
+    add('sub_x_sumall_rep', 10, 2, lambda A, p: A[0] - np.sum(A[0]), g_one, nonfirst=True)
+    add('neg_mul_sumall_mul_x', 11, 3, lambda A, p: -(np.sum(A[0] * A[1]) * A[2]), g_pair_free, data='small', bview=True)
+    add('add_mul_sumall_x_x', 11, 3, lambda A, p: np.sum(A[0]) * A[1] + A[2], g_free_pair, bview=True)
+    add('tr_add_maxall_x', 11, 3, lambda A, p: np.transpose(np.max(A[0]) + A[1], p['axes']), g_free_tr, bview=True)
+    add('mul_x_sumall_mul', 11, 3, lambda A, p: A[0] * np.sum(A[1] * A[2]), g_free_pair, data='small', nonfirst=True)
     # ---- column-major leaves (known finding kernel.colmajor-operand) ----
     add('transpose_col', 6, 1, lambda A, p: np.transpose(A[0], p['axes']), g_transpose, layout='col')
     add('add_col', 6, 1, lambda A, p: A[0] + A[1], g_bin, layout='col')
@@ -288,15 +311,16 @@ def _progs():
 
 
 PROGS = _progs()
-GROUPS = [1, 2, 3, 4, 5, 6, 7, 8, 9]
+GROUPS = [1, 2, 3, 4, 5, 6, 7, 8, 9, 10, 11]
 
 
 # programs also run END TO END through the real SYCL evaluator (eval/sycl/evaluator.hpp + context.hpp) over the sequential
 # stand-in for the SYCL runtime harness/c13_sycl_mock.hpp: name -> harness TU group (h_c13_sycl.cpp)
 SYCL_PROGS = {'transpose': 1, 'add': 1, 'reduce_add': 1, 'accumulate_add': 1, 'neg_add': 1, 'add_tr': 1,
               'sum_mul': 2, 'neg_add_mul': 2, 'tr_neg_add': 2, 'add_mul2': 2,
-              'transpose_col': 3, 'add_col': 3}
-SYCL_GROUPS = [1, 2, 3]
+              'transpose_col': 3, 'add_col': 3,
+              'mul_sumall_x': 4, 'sub_maxall_x': 4, 'neg_mul_sumall_mul_x': 4, 'add_x_maxall': 4}
+SYCL_GROUPS = [1, 2, 3, 4]
 SYCL_LOCAL = 32          # work-group size chosen by sycl::context_t::run_
 _SYCL_INC = os.path.join(os.path.dirname(os.path.dirname(os.path.dirname(os.path.abspath(__file__)))), 'harness', 'c13_sycl')
 
